@@ -59,3 +59,20 @@ Fixpoint run_events (es : list ev) : list Z :=
 
 (* last three tokens of a run *)
 Definition outcome_of (l : list Z) : list Z := skipn (length l - 3) l.
+
+(* Terminating events: a normal return leaves the cursor inside [0, cap]; a rejection leaves it where it was. *)
+Definition ev_term_ok (p0 cap : Z) (e : ev) : Prop :=
+  match e with
+  | ERet g _ p => g = true -> 0 <= p <= cap
+  | ERej g _ p => g = true -> p = p0
+  | _ => True
+  end.
+
+(* first terminating event reached: (is_return, result-or-exception code, cursor offset) *)
+Fixpoint first_term (es : list ev) : option (bool * Z * Z) :=
+  match es with
+  | [] => None
+  | ERet g r p :: t => if g then Some (true, r, p) else first_term t
+  | ERej g x p :: t => if g then Some (false, x, p) else first_term t
+  | _ :: t => first_term t
+  end.
